@@ -275,3 +275,71 @@ Theorem parse_program_c_wf : forall text forest p,
 Proof.
   intros text forest p H. exact (program_of_forest_wf _ _ _ (parse_program_c_inv _ _ _ H)).
 Qed.
+
+(* ------------------------------------------------------------------ the formatter-half hypothesis with wf_ast discharged
+   [stmt_ok_parsed] = DriverText.stmt_ok without its `wf_ast e = true` conjunct; for a program that comes out of the
+   parser model the two are equivalent, so the end-to-end theorems (tree -> emitted text) need one hypothesis less. *)
+Require Import Blots.proofs.Scan Blots.proofs.ScanFmt Blots.proofs.DriverText Blots.proofs.PegCommentsCompose.
+
+Definition stmt_ok_parsed (O : oracles) (key_ok : string -> bool) (mw : option nat) (s : stmt) : Prop :=
+  let w := match mw with Some n => n | None => DEFAULT_MAX_COLUMNS end in
+  match s with
+  | St k eol _ _ =>
+      (match k with
+       | SComment c => comment_ok c = true
+       | SExpr e =>
+           atoms_ok key_ok e = true /\
+           forallb cfree (doc_opaque (fmtd O w e 0)) = true /\
+           opaque_texts_neutral (fmtd O w e 0)
+       | SOut e =>
+           atoms_ok key_ok e = true /\
+           forallb cfree (doc_opaque (fmtd O w (EOutput e) 0)) = true /\
+           opaque_texts_neutral (fmtd O w (EOutput e) 0)
+       end) /\
+      match eol with
+      | Some c => comment_ok c = true /\ match k with SComment _ => False | _ => True end
+      | None => True
+      end
+  end.
+
+Lemma stmt_ok_of_parsed : forall O key_ok mw s,
+  stmt_wf_ast s = true -> stmt_ok_parsed O key_ok mw s -> stmt_ok O key_ok mw s.
+Proof.
+  intros O key_ok mw [k eol sl el] Hw H. unfold stmt_ok, stmt_ok_parsed in *. destruct H as [Hk He]. split; [|exact He].
+  destruct k; cbn [stmt_wf_ast] in Hw; try exact Hk; (split; [exact Hw|exact Hk]).
+Qed.
+
+Lemma program_ok_of_parsed : forall O key_ok mw p,
+  forallb stmt_wf_ast p = true -> Forall (stmt_ok_parsed O key_ok mw) p -> Forall (stmt_ok O key_ok mw) p.
+Proof.
+  intros O key_ok mw p Hw H. induction H as [|s p Hs _ IH]; [constructor|].
+  cbn [forallb] in Hw. apply andb_prop in Hw as [H1 H2]. constructor; [apply stmt_ok_of_parsed; assumption|exact (IH H2)].
+Qed.
+
+Theorem tree_to_text_lib_parsed :
+  forall O key_ok, (forall k, key_ok k = true -> neutral (o_record_key O k)) ->
+  forall text forest p mw d,
+  forest_view_ok text forest = true -> forest_shape_ok text forest = true ->
+  forest_no_empty_container text forest = true ->
+  program_of_forest text forest = Outcome.Ok (Some p) ->
+  Forall (stmt_ok_parsed O key_ok mw) p -> format_lib O mw p = Some d ->
+  scan_comments (render d) = forest_comments text forest.
+Proof.
+  intros O key_ok Hk text forest p mw d Hv Hs Hn Hp Hok Hd.
+  apply (tree_to_text_lib O key_ok Hk text forest p mw d Hv Hs Hn Hp); [|exact Hd].
+  apply program_ok_of_parsed; [exact (program_of_forest_wf _ _ _ Hp)|exact Hok].
+Qed.
+
+Theorem tree_to_text_cli_parsed :
+  forall O key_ok, (forall k, key_ok k = true -> neutral (o_record_key O k)) ->
+  forall text forest p,
+  forest_view_ok text forest = true -> forest_shape_ok text forest = true ->
+  forest_no_empty_container text forest = true ->
+  program_of_forest text forest = Outcome.Ok (Some p) ->
+  Forall (stmt_ok_parsed O key_ok None) p ->
+  scan_comments (render (format_cli O p)) = forest_comments text forest.
+Proof.
+  intros O key_ok Hk text forest p Hv Hs Hn Hp Hok.
+  apply (tree_to_text_cli O key_ok Hk text forest p Hv Hs Hn Hp).
+  apply program_ok_of_parsed; [exact (program_of_forest_wf _ _ _ Hp)|exact Hok].
+Qed.
